@@ -139,10 +139,21 @@ func c14APIConfig(set []string, ctx int) cors.Config {
 	return c
 }
 
-// c14ConfigNames is how the public-API passes spell the allowed set in the configuration: every name once as
-// given, then every name again in upper case and in reverse order (the configured list is a set: C15).
+// c14ConfigNames is how the public-API passes spell the allowed set in the configuration: every name once with its
+// first letter in upper case (as header names are usually written; no name is listed in lower case), then every
+// name again in upper case and in reverse order (the configured list is a set: C15).
 func c14ConfigNames(set []string) []string {
-	out := append([]string(nil), set...)
+	out := make([]string, 0, 2*len(set))
+	for _, n := range set {
+		b := []byte(n)
+		for i := range b {
+			if 'a' <= b[i] && b[i] <= 'z' {
+				b[i] -= 'a' - 'A'
+				break
+			}
+		}
+		out = append(out, string(b))
+	}
 	for i := len(set) - 1; i >= 0; i-- {
 		out = append(out, strings.ToUpper(set[i]))
 	}
